@@ -316,7 +316,7 @@ fn run_register_scenario(name: &'static str, writers: &'static [&'static [u8]], 
         return json!({"scenario": name, "kind": "register", "skipped": "colorchoice source could not be re-targeted at loom (rewrite pattern missing)"});
     }
     let mut b = loom::model::Builder::new();
-    b.preemption_bound = Some(preemptions);
+    b.preemption_bound = (preemptions != usize::MAX).then_some(preemptions);
     b.check(move || {
         let mut handles = vec![];
         for w in writers {
@@ -368,6 +368,9 @@ struct RegScenario {
 fn reg_scenarios() -> Vec<RegScenario> {
     vec![
         RegScenario { name: "register/2w1-1r2", writers: &[&[2], &[3]], reads: 2, preemptions: 3, thorough_only: false },
+        // values with disjoint bit patterns (01 / 10): read-modify-write implementations merge them into 11
+        RegScenario { name: "register/2w1(1,2)-1r2", writers: &[&[1], &[2]], reads: 2, preemptions: 3, thorough_only: false },
+        RegScenario { name: "register/2w1(2,1)-1r1/unbounded", writers: &[&[2], &[1]], reads: 1, preemptions: usize::MAX, thorough_only: false },
         RegScenario { name: "register/2w2-1r2", writers: &[&[1, 2], &[3, 0]], reads: 2, preemptions: 2, thorough_only: false },
         RegScenario { name: "register/2w2-1r3/p3", writers: &[&[1, 2], &[3, 1]], reads: 3, preemptions: 3, thorough_only: true },
         RegScenario { name: "register/3w1-1r2/p3", writers: &[&[1], &[2], &[3]], reads: 2, preemptions: 3, thorough_only: true },
